@@ -138,6 +138,18 @@ CHECKS["C18"] = {
     "technique": TECH + "shape ties, perturb/restore pairing, quotient polarity, callee kind signature (index kinds)",
 }
 
+CHECKS["C10"] = {
+    "text": "For every degree-n input: poly_solve returns a vector of length n on every path (zeros(degree), replaced only under degree==2/3 by helpers that allocate 2/3; "
+            "the deflation loop writes every slot); the degree tests cover every usize with degree 0 rejected first; both roots() entry points copy all coefficients in order "
+            "and forward refine; every reachable loop is a bounded for with an acyclic call graph (always returns); every complex division has a divisor that is a non-zero "
+            "literal, a leading coefficient, dominated by a zero/magnitude test, or allow-listed by name with its reason (this found x^2 -> NaN); polishing uses the undeflated "
+            "coefficients; deflation is synthetic division.",
+    "design_ref": "DESIGN.md §3 C10",
+    "note": "Accuracy (backward error), finiteness in general, matching with the true roots and convergence of Laguerre's iteration are numerical and not decided statically. "
+            "One allow-listed divisor symbol: k in cubic_solve.",
+    "technique": TECH + "length typing of the result on all paths, dispatch coverage, termination shape, guard-dominated divisor discipline with a one-symbol allow-list, data-flow pattern for deflation",
+}
+
 NOT_APPLICABLE = {
 }
 for _i in range(1, 21):
